@@ -16,7 +16,11 @@ CONSTANTS
   Defect = "none"
   AllowBadConfig = FALSE
   Emit = FALSE
+  Faults = {"errreply"}
+  QS <- NoQ
+  Ops <- AllOps
+  Big = FALSE
 VIEW MCView
 INVARIANTS TypeOK NoNegativeCounter MinCountAtLeastNet PresentWhileNetPositive AnswersHonourObligations AnswersPerKey
-PROPERTIES FailedRemoveChangesNothing
+PROPERTIES FailedRemoveChangesNothing AddNilMeansPresent
 CHECK_DEADLOCK FALSE
